@@ -32,6 +32,7 @@ type roundCfg struct {
 	initial          []string // paths (value "i") inserted, merged and saved as a round of their own before the exploration starts
 	base             int64    // the first round's version is base+1 (round numbers are written as store keys: byte-order boundaries)
 	syncOps          bool     // a round may end with the authoritative state of the round being merged in (MergeDB)
+	forkSwitch       bool     // "the round just saved is abandoned and computed again on the previous round's state" (same version saved twice) is an event
 	syncOlder        bool     // with syncOps: the authoritative state was computed one version earlier than the adopting trie's version (catching up)
 }
 
@@ -56,6 +57,8 @@ func (e rEvent) String() string {
 		return fmt.Sprintf("MergeDB(full state of: previous round + Insert(%q,%q))", e.P, e.V)
 	case 'z':
 		return fmt.Sprintf("MergeDB(full state of: previous round + Delete(%q))", e.P)
+	case 'f':
+		return "fork switch: the round just saved is abandoned, its version is computed and saved again on the previous state"
 	case 'Y':
 		return fmt.Sprintf("MergeDB(full state of: previous round + Insert(%q,%q), computed at the version before this trie's)", e.P, e.V)
 	case 'Z':
@@ -73,6 +76,9 @@ func (c roundCfg) events() []rEvent {
 		evs = append(evs, rEvent{K: 'D', P: p})
 	}
 	evs = append(evs, rEvent{K: 'm'}, rEvent{K: 'x'}, rEvent{K: 'S'})
+	if c.forkSwitch {
+		evs = append(evs, rEvent{K: 'f'})
+	}
 	if c.syncOps {
 		for _, p := range c.paths {
 			if c.syncOlder {
@@ -222,6 +228,17 @@ func (w *rWorld) apply(e rEvent, judge bool) (fail string) {
 			fail = fmt.Sprintf("panic: %v", r)
 		}
 	}()
+	if e.K == 'f' {
+		n := len(w.saved)
+		w.saved = w.saved[:n-1]
+		w.ver--
+		w.prevRoot = nil
+		if n >= 2 {
+			w.prevRoot = w.saved[n-2].root
+		}
+		w.startRound()
+		return ""
+	}
 	if e.K != 'S' {
 		w.roundEvts = append(w.roundEvts, e)
 		opening := w.T == nil && (e.K == 'I' || e.K == 'D')
@@ -598,8 +615,13 @@ func runRounds(rep *rt.Report, c roundCfg, deadline time.Time, agg *crashStats) 
 		OpName: func(i int) string { return evs[i].String() },
 		Enabled: func(h []uint8, op int) bool {
 			open, tops, txns, rounds, synced := false, 0, 0, 0, false
+			forks, fresh := 0, false // fresh: the last event was a save (nothing done in the new round yet)
 			for _, x := range h {
+				fresh = evs[x].K == 'S'
 				switch evs[x].K {
+				case 'f':
+					forks++
+					rounds--
 				case 'y', 'z', 'Y', 'Z':
 					synced = true
 				case 'I', 'D':
@@ -615,6 +637,9 @@ func runRounds(rep *rt.Report, c roundCfg, deadline time.Time, agg *crashStats) 
 					txns = 0
 					synced = false
 				}
+			}
+			if evs[op].K == 'f' {
+				return fresh && forks == 0
 			}
 			if synced {
 				return evs[op].K == 'S' // the adopted state is what the round saves
@@ -693,6 +718,10 @@ func C04(tier rt.Tier) int {
 			{name: "sync-merge-2rounds", paths: pfPaths[:3], vals: []string{"x"}, rounds: 2, txnOps: 2, maxTxns: 1, depth: 8, syncOps: true},
 			{name: "rounds-255..257", paths: pfPaths[:2], vals: []string{"x", "y"}, rounds: 3, txnOps: 1, maxTxns: 1, depth: 9, base: 254},
 			{name: "prefix-key-over-extension", initial: prefixOverExt, paths: prefixOverExt, vals: []string{"x"}, rounds: 2, txnOps: 2, maxTxns: 1, depth: 7},
+			{name: "add-then-remove-across-rounds", initial: pfPaths[:2], paths: pfPaths[:4], vals: []string{"x"}, rounds: 3, txnOps: 1, maxTxns: 1, depth: 9},
+			{name: "add-then-remove-child-of-root-branch", initial: []string{"1a", "2a"}, paths: []string{"1a", "2a", "3a", "1b"}, vals: []string{"x"}, rounds: 3, txnOps: 1, maxTxns: 1, depth: 9},
+			{name: "fork-switch", initial: pfPaths[:2], paths: pfPaths[:3], vals: []string{"x", "y"}, rounds: 3, txnOps: 1, maxTxns: 1, depth: 9, forkSwitch: true},
+			{name: "1path-6rounds", initial: []string{"0b22"}, paths: pfPaths[:1], vals: []string{"x", "y"}, rounds: 6, txnOps: 1, maxTxns: 1, depth: 18},
 			{name: "sync-merge-older-origin", paths: pfPaths[:3], vals: []string{"x"}, rounds: 2, txnOps: 2, maxTxns: 1, depth: 7, syncOps: true, syncOlder: true, base: 4},
 		}
 	} else {
@@ -750,6 +779,14 @@ func C05(tier rt.Tier) int {
 			// a key that is a prefix of others, whose branch has ONE child that is an extension (two shared characters
 			// below the prefix), next to a sibling: deleting the prefix key lifts the extension
 			{name: "prefix-key-over-extension", initial: prefixOverExt, paths: prefixOverExt, vals: []string{"x"}, rounds: 2, txnOps: 2, maxTxns: 1, depth: 7, c05: true},
+			// three more rounds on top of a saved two-key state: a sibling added in one round and removed in a later one
+			// brings branches back to a content they had before
+			{name: "add-then-remove-across-rounds", initial: pfPaths[:2], paths: pfPaths[:4], vals: []string{"x"}, rounds: 3, txnOps: 1, maxTxns: 1, depth: 9, c05: true},
+			{name: "add-then-remove-child-of-root-branch", initial: []string{"1a", "2a"}, paths: []string{"1a", "2a", "3a", "1b"}, vals: []string{"x"}, rounds: 3, txnOps: 1, maxTxns: 1, depth: 9, c05: true},
+			// a version saved twice: the first attempt of a round is abandoned (fork switch) and the round saved again, possibly as an idle round
+			{name: "fork-switch", initial: pfPaths[:2], paths: pfPaths[:3], vals: []string{"x", "y"}, rounds: 3, txnOps: 1, maxTxns: 1, depth: 9, c05: true, forkSwitch: true},
+			// one path, many rounds: a long history of the same few nodes dying and coming back
+			{name: "1path-6rounds", initial: []string{"0b22"}, paths: pfPaths[:1], vals: []string{"x", "y"}, rounds: 6, txnOps: 1, maxTxns: 1, depth: 18, c05: true},
 			{name: "rounds-65535..65537", paths: pfPaths[:2], vals: []string{"x", "y"}, rounds: 3, txnOps: 1, maxTxns: 1, depth: 9, c05: true, base: 65534},
 		}
 	} else {
